@@ -7,6 +7,7 @@ package main
 
 import (
 	"fmt"
+	"github.com/absfs/absnfs"
 	"math/rand"
 	"strconv"
 	"strings"
@@ -55,6 +56,13 @@ func judgeC11(c SrvCase) []Violation {
 		squash = "none" // newWorldOn's default
 	}
 	for i, o := range c.Ops {
+		if o.Kind == "policy-nosquash" {
+			// an operator reloads the policy the way the documented runtime-reconfiguration example does: a PolicyOptions
+			// literal that does not mention Squash. The squash mode is immutable at runtime: the update is refused, or, if
+			// it were accepted, must leave the configured mode in force — the oracle keeps judging under that mode.
+			_ = w.srv.NFS.UpdatePolicyOptions(absnfs.PolicyOptions{ReadOnly: c.Cfg.ReadOnly, MaxFileSize: c.Cfg.MaxFileSize})
+			continue
+		}
 		cred := o.Cred
 		if cred.Flavor == 0 && cred.Raw == nil {
 			cred = rootCred()
@@ -144,6 +152,10 @@ func genC11(rng *rand.Rand, n int) SrvCase {
 		}
 		name := fmt.Sprintf("n%d", i)
 		dir := []string{"/", "/d"}[rng.Intn(2)]
+		if rng.Intn(10) == 0 {
+			c.Ops = append(c.Ops, SOp{Kind: "policy-nosquash"})
+			continue
+		}
 		switch rng.Intn(5) {
 		case 0:
 			o.Kind, o.Dir = "setattr", []string{"/f", "/d", "/l", "/"}[rng.Intn(4)]
